@@ -2479,6 +2479,18 @@ M('C07', 'attrs-truthiness-compared', DE, "            if getattr(key, attr) != 
 M('C07', 'call-check-only-with-identity', DE, "                self.check_attributes(key)\n", "                if kwargs.get('user') is not None:\n                    self.check_attributes(key)\n", 'C07.5')
 M('C07', 'call-check-only-when-subkey-selected', DE, "                self.check_attributes(key)\n", "                if _key is not key:\n                    self.check_attributes(key)\n", 'C07.5')
 M('C07', 'call-unguarded-fast-path', DE, "    def __call__(self, action):\n", "    def __call__(self, action):\n        if not self.conditions:\n            return action\n\n", 'C07.5')
+# --- wave 3: width recomputed on copy, opaque / wholesale copies into the public packet (C07.7 incl. the shared serialised-attribute rule)
+_W3_ECP = "        pk = self.__class__()\n        pk.bytelen = self.bytelen\n        pk.format = self.format\n        pk.x = copy.copy(self.x)\n        pk.y = copy.copy(self.y)"
+M('C07', 'ecpoint-copy-width-recomputed', FL, _W3_ECP, "        pk = self.__class__()\n        pk.bytelen = (max(self.x.bit_length(), self.y.bit_length()) + 7) // 8\n        pk.format = self.format\n        pk.x = copy.copy(self.x)\n        pk.y = copy.copy(self.y)", 'C07.7')
+M('C07', 'ecpoint-copy-format-defaulted', FL, _W3_ECP, "        pk = self.__class__()\n        pk.bytelen = self.bytelen\n        pk.x = copy.copy(self.x)\n        pk.y = copy.copy(self.y)", 'C07.7')
+M('C07', 'ecpoint-copy-drops-y', FL, _W3_ECP, "        pk = self.__class__()\n        pk.bytelen = self.bytelen\n        pk.format = self.format\n        pk.x = copy.copy(self.x)\n        pk.y = copy.copy(self.x)", 'C07.7')
+T('C07', 'twin-ecpoint-copy-order', FL, _W3_ECP, "        point = type(self)()\n        point.x = copy.copy(self.x)\n        point.y = copy.copy(self.y)\n        point.format = self.format\n        point.bytelen = self.bytelen\n        pk = point")
+_W3_PUBC = "        for pm in self.keymaterial.__pubfields__:\n            setattr(pk.keymaterial, pm, copy.copy(getattr(self.keymaterial, pm)))"
+M('C07', 'pubkey-copies-all-instance-fields', PK, _W3_PUBC, "        for pm in vars(self.keymaterial):\n            setattr(pk.keymaterial, pm, copy.copy(getattr(self.keymaterial, pm)))", 'C07.1')
+M('C07', 'pubkey-shares-keymaterial-object', PK, _W3_PUBC, "        pk.keymaterial = self.keymaterial", 'C07.1')
+M('C07', 'pubkey-copies-private-fields-too', PK, _W3_PUBC, "        for pm in self.keymaterial.__pubfields__ + self.keymaterial.__privfields__:\n            if hasattr(pk.keymaterial, pm):\n                setattr(pk.keymaterial, pm, copy.copy(getattr(self.keymaterial, pm)))", 'C07.1')
+M('C07', 'userid-copy-drops-header', PK, "        uid = UserID()\n        uid.header = copy.copy(self.header)\n        uid.uid = self.uid", "        uid = UserID()\n        uid.uid = self.uid", 'C07.7')
+M('C07', 'sigpacket-copy-rehashes-subpackets', PK, "        spkt.subpackets = copy.copy(self.subpackets)\n", "        for sp in self.subpackets._hashed_sp.values():\n            spkt.subpackets['h_' + sp.__class__.__name__] = sp\n        for sp in self.subpackets._unhashed_sp.values():\n            spkt.subpackets[sp.__class__.__name__] = sp\n", 'C07.7')
 # =============================================================================================== C16
 M('C16', 'sign-drops-unlocked', PGP, "    @KeyAction(KeyFlags.Sign, is_unlocked=True, is_public=False)", "    @KeyAction(KeyFlags.Sign, is_public=False)", 'C16.1')
 M('C16', 'encrypt-private', PGP, "    @KeyAction(KeyFlags.EncryptCommunications, KeyFlags.EncryptStorage, is_public=True)", "    @KeyAction(KeyFlags.EncryptCommunications, KeyFlags.EncryptStorage, is_public=False)", 'C16.1')
@@ -2679,6 +2691,19 @@ M('C16', 'call-no-key-check-after-usage', DE, "            if key._key is None:\
 M('C16', 'usage-scan-stops-at-first-subkey', DE, "                if self.flags & set(_key._get_key_flags(user)):\n                    break\n", "                if self.flags & set(_key._get_key_flags(user)) or _key is not key:\n                    break\n", 'C16.3')
 M('C16', 'usage-refusal-only-for-primary', DE, "                if key._require_usage_flags:\n                    raise PGPError(warning)", "                if key._require_usage_flags and key.is_primary:\n                    raise PGPError(warning)", 'C16.3')
 M('C16', 'call-unguarded-fast-path', DE, "    def __call__(self, action):\n", "    def __call__(self, action):\n        if not self.flags and not self.conditions:\n            return action\n\n", 'C16.2')
+# --- wave 3: identity selection by exact match (get_uid evaluated on concrete strings), remembered flags, inner elements
+_W3_GU = "            return next((u for u in self._uids if search in filter(lambda a: a is not None, (u.name, u.comment, u.email))), None)"
+M('C16', 'getuid-substring', PGP, _W3_GU, "            return next((u for u in self._uids\n                         if any(search in a for a in (u.name, u.comment, u.email) if a is not None)), None)", 'C16.5')
+M('C16', 'getuid-case-insensitive', PGP, _W3_GU, "            return next((u for u in self._uids if search.lower() in [a.lower() for a in (u.name, u.comment, u.email) if a is not None]), None)", 'C16.5')
+M('C16', 'getuid-prefix', PGP, _W3_GU, "            return next((u for u in self._uids if any(a.startswith(search) for a in (u.name, u.comment, u.email) if a)), None)", 'C16.5')
+M('C16', 'getuid-stripped', PGP, _W3_GU, "            return next((u for u in self._uids if search.strip() in filter(lambda a: a is not None, (u.name, u.comment, u.email))), None)", 'C16.5')
+M('C16', 'getuid-falls-back-to-first', PGP, _W3_GU, "            return next((u for u in self._uids if search in filter(lambda a: a is not None, (u.name, u.comment, u.email))),\n                        next(iter(self._uids), None))", 'C16.5')
+M('C16', 'getuid-name-only-substring-of-joined', PGP, _W3_GU, "            return next((u for u in self._uids if search in ' '.join(a for a in (u.name, u.comment, u.email) if a)), None)", 'C16.5')
+T('C16', 'twin-getuid-loop', PGP, _W3_GU, "            for uid in self._uids:\n                fields = [a for a in (uid.name, uid.comment, uid.email) if a is not None]\n                if search in fields:\n                    return uid\n            return None")
+T('C16', 'twin-getuid-equality', PGP, _W3_GU, "            return next((u for u in self._uids if any(a == search for a in (u.name, u.comment, u.email) if a is not None)), None)")
+_W3_SUBK = "        return next(reversed(list(self.self_signatures))).key_flags"
+M('C16', 'subkey-flags-cached-on-object', PGP, _W3_SUBK, "        if getattr(self, '_flags_cache', None) is None:\n            self._flags_cache = next(reversed(list(self.self_signatures))).key_flags\n        return self._flags_cache", 'C16.5')
+M('C16', 'subkey-flags-second-newest', PGP, _W3_SUBK, "        return list(self.self_signatures)[-2:][0].key_flags", 'C16.5')
 M('C16', 'unlocked-public-short-circuit-lost', PGP, "        if not self.is_protected:\n            return True\n\n        return self._key.unlocked", "        return True", 'C16.2')
 T('C16', 'twin-delegate-loop-skip', PGP, _C16_DEL, "            for skid in self.subkeys:\n                if skid not in message.encrypters:\n                    continue\n                return self.subkeys[skid].decrypt(message)\n")
 
@@ -4708,3 +4733,40 @@ M('C02', 'notation-binary-value-aliases-caller-bytearray', SS, "        else:  #
 M('C02', 'notation-binary-value-aliases-unless-bytes', SS, "        else:  # pragma: no cover\n            self._value = bytearray(val)\n", "        else:  # pragma: no cover\n            self._value = val if isinstance(val, bytearray) else bytearray(val)\n", 'C02.2')
 T('C02', 'twin-notation-binary-value-slice-copy', SS, "        else:  # pragma: no cover\n            self._value = bytearray(val)\n", "        else:  # pragma: no cover\n            own = val[:]\n            self._value = own\n")
 T('C02', 'twin-notation-binary-value-copy-module', SS, "        else:  # pragma: no cover\n            self._value = bytearray(val)\n", "        else:  # pragma: no cover\n            self._value = bytearray(bytes(val))\n")
+
+# ---- wave-3 twins (C05-ref10, C14-ref9, C14-ref10)
+BFLAG = "    def bflag_bytearray(self, val):\n        self.bflag = bool(self.bytes_to_int(val))"
+T('C14', 'twin-boolean-any-octet', SS, BFLAG, "    def bflag_bytearray(self, val):\n        self.bflag = any(val)")
+T('C14', 'twin-boolean-int-from-bytes', SS, BFLAG, "    def bflag_bytearray(self, val):\n        self.bflag = int.from_bytes(val, 'big') != 0")
+M('C14', 'boolean-any-after-first-octet', SS, BFLAG, "    def bflag_bytearray(self, val):\n        self.bflag = any(val[1:])", 'C14.2')
+M('C14', 'boolean-equals-one', SS, BFLAG, "    def bflag_bytearray(self, val):\n        self.bflag = self.bytes_to_int(val) == 1", 'C14.2')
+M('C14', 'boolean-low-bit-only', SS, BFLAG, "    def bflag_bytearray(self, val):\n        self.bflag = bool(val[-1] & 1)", 'C14.2')
+T('C14', 'twin-exportable-single-lookup', PGP, EXPORTABLE,
+  "        marks = self._signature.subpackets['ExportableCertification']\n        if not marks:\n            return True\n\n        return bool(marks[0])\n")
+M('C14', 'exportable-last-subpacket-decides', PGP, EXPORTABLE,
+  "        marks = self._signature.subpackets['ExportableCertification']\n        if not marks:\n            return True\n\n        return bool(marks[-1])\n", 'C14.2')
+M('C14', 'exportable-single-lookup-default-false', PGP, EXPORTABLE,
+  "        marks = self._signature.subpackets['ExportableCertification']\n        if not marks:\n            return False\n\n        return bool(marks[0])\n", 'C14.2')
+M('C14', 'exportable-hashed-area-only', PGP, EXPORTABLE,
+  "        marks = self._signature.subpackets['h_ExportableCertification']\n        if not marks:\n            return True\n\n        return bool(marks[0])\n", 'C14.2')
+KEYCOPY_ALL = "        for uid in self._uids:\n            key |= copy.copy(uid)\n\n        for id, subkey in self._children.items():\n            key |= copy.copy(subkey)\n\n" + KEYCOPY_SIGS
+T('C14', 'twin-copy-one-chained-loop', PGP, KEYCOPY_ALL,
+  "        own_sigs = (sig for sig in self._signatures if not sig.embedded)\n\n        for component in itertools.chain(self._uids, self._children.values(), own_sigs):\n            key |= copy.copy(component)\n")
+M('C14', 'copy-chain-omits-subkeys', PGP, KEYCOPY_ALL,
+  "        own_sigs = (sig for sig in self._signatures if not sig.embedded)\n\n        for component in itertools.chain(self._uids, own_sigs):\n            key |= copy.copy(component)\n", 'C14.4')
+M('C14', 'copy-chain-filters-revocations', PGP, KEYCOPY_ALL,
+  "        own_sigs = (sig for sig in self._signatures if not sig.embedded and sig.type != SignatureType.KeyRevocation)\n\n        for component in itertools.chain(self._uids, self._children.values(), own_sigs):\n            key |= copy.copy(component)\n", 'C14.4')
+M('C14', 'copy-chain-filters-uids', PGP, KEYCOPY_ALL,
+  "        own_sigs = (sig for sig in self._signatures if not sig.embedded)\n        ids = (u for u in self._uids if u.is_uid)\n\n        for component in itertools.chain(ids, self._children.values(), own_sigs):\n            key |= copy.copy(component)\n", 'C14.4')
+# trailer length: any integer-linear spelling of the length of the covered run (held-out twin C05-ref9); one item left out / counted twice is not
+_TRL = ("        hcontext = bytearray()\n        hcontext.append(self._signature.header.version if not self.embedded else self._signature._sig.header.version)\n        hcontext.append(self.type)\n        hcontext.append(self.key_algorithm)\n        hcontext.append(self.hash_algorithm)\n"
+        "        hcontext += self._signature.subpackets.__hashbytearray__()\n        hlen = len(hcontext)\n        _data += hcontext\n        _data += b'\\x04\\xff'\n        _data += self.int_to_bytes(hlen, 4)\n")
+_TRL_NEW = ("        sigpkt = self._signature._sig if self.embedded else self._signature\n        fixed = bytearray((sigpkt.header.version, self.type, self.key_algorithm, self.hash_algorithm))\n        hashed = self._signature.subpackets.__hashbytearray__()\n"
+            "        _data += fixed\n        _data += hashed\n        _data += b'\\x04\\xff' + self.int_to_bytes(%s, 4)\n")
+for _p in ('C01', 'C02', 'C05', 'C11'):
+    T(_p, 'twin-trailer-length-sum-of-subruns', PGP, _TRL, _TRL_NEW % 'len(hashed) + len(fixed)')
+    T(_p, 'twin-trailer-length-fixed-first-plus-constant-split', PGP, _TRL, _TRL_NEW % '2 + len(hashed) + 2')
+for _p, _r in (('C02', 'C02.1'), ('C05', 'C05.4')):
+    M(_p, 'trailer-length-sum-leaves-one-octet-out', PGP, _TRL, _TRL_NEW % 'len(hashed) + len(fixed[:3])', _r)
+    M(_p, 'trailer-length-sum-counts-fixed-twice', PGP, _TRL, _TRL_NEW % 'len(fixed) + len(hashed) + len(fixed)', _r)
+    M(_p, 'trailer-length-sum-omits-hashed-area', PGP, _TRL, _TRL_NEW % 'len(fixed) + 2', _r)
